@@ -101,12 +101,18 @@ func genConv(r *gen.R, validOnly bool) (mon.OpReq, Expect, convInfo, bool) {
 		ks[1] = ks[0]%3 + 1
 	}
 	mode := r.PickStr("", "NOTSET", "NOTSET", "SAME_UPPER", "SAME_LOWER", "VALID")
+	hugeStride := !validOnly && r.Chance(0.012)
+	if hugeStride {
+		// a stride far beyond the padded input (one output position on that axis), explicit pads only
+		mode = r.PickStr("", "NOTSET")
+		strides[r.Intn(nsp)] = r.PickInt(math.MaxInt64, 1<<62, 1<<40, math.MaxInt32+1, math.MaxInt64-1)
+	}
 	at := ref.ConvAttrs{AutoPad: mode}
 	req := mon.OpReq{Op: "Conv"}
 	if mode != "" {
 		req.Attrs = append(req.Attrs, mon.AttrS("auto_pad", mode))
 	}
-	if r.Chance(0.7) {
+	if hugeStride || r.Chance(0.7) {
 		at.Strides = strides
 		req.Attrs = append(req.Attrs, mon.AttrIntsI("strides", strides))
 	}
